@@ -6,6 +6,44 @@ use synth_utils::adsr::{Adsr, Input, State, SustainLevel, TimePeriod};
 
 pub const RATES: [f32; 8] = [100.0, 128.0, 999.0, 1000.0, 44100.0, 48000.0, 96000.0, 192000.0];
 
+/// Runs a COPY of a new envelope through one note to see whether its power-on times are those of the code as
+/// first pinned (ideal increment `fl` per tick in every timed phase) and what its power-on sustain level is.
+fn power_on_probe(a: &Adsr, fl: i64) -> (bool, f32) {
+    let m = 1i64 << 24;
+    let near = |inc: i64| -> bool { fl < m && (inc - fl).abs() <= fl / (1 << 21) + 2 };
+    let mut c = *a;
+    let mut ok = true;
+    c.gate_on();
+    // first tick of the attack
+    c.tick();
+    let ph = phase_num(c.verif_state());
+    ok &= if fl >= m { ph != 1 } else { ph == 1 && near(c.verif_phase_bits() as i64) };
+    // on to the decay (bounded: 21 s worth of ticks at 192 kHz)
+    let mut guard = 0u32;
+    while phase_num(c.verif_state()) == 1 && guard < 4_100_000 {
+        c.tick();
+        guard += 1;
+    }
+    if phase_num(c.verif_state()) == 2 {
+        // the tick that ended the attack left the decay at position 0: one more tick shows its increment
+        c.tick();
+        let ph = phase_num(c.verif_state());
+        ok &= if fl >= m { ph != 2 } else { ph == 2 && near(c.verif_phase_bits() as i64) };
+    }
+    let mut guard = 0u32;
+    while phase_num(c.verif_state()) == 2 && guard < 4_100_000 {
+        c.tick();
+        guard += 1;
+    }
+    let s0 = if phase_num(c.verif_state()) == 3 { c.value() } else { 1.0 };
+    ok &= phase_num(c.verif_state()) == 3 && s0 == 1.0;
+    c.gate_off();
+    c.tick();
+    let ph = phase_num(c.verif_state());
+    ok &= if fl >= m { ph != 4 } else { ph == 4 && near(c.verif_phase_bits() as i64) };
+    (ok, s0)
+}
+
 pub struct Session<'a> {
     env: Option<Adsr>,
     pub fs: f32,
@@ -50,12 +88,18 @@ impl<'a> Session<'a> {
         match guarded(|| {
             let a = Adsr::new(fs);
             let o = obs(&a).2;
-            (a, o)
+            (a, o, power_on_probe(&a, fl))
         }) {
-            Ok((a, o)) => {
+            Ok((a, o, (as_built, s0))) => {
                 self.env = Some(a);
                 self.alive = true;
-                self.out.line(&format!("{{\"op\":\"new\",\"fs\":{},\"fl\":{},\"fr\":{},{}}}", key(fs), fl, fr, o));
+                // the power-on times (1 ms each as first pinned) are stated nowhere: if a copy of the new
+                // envelope does not run at them, the specification is told that they are unknown (fl = -1)
+                let (fl, fr) = if as_built { (fl, fr) } else { (-1, 0) };
+                self.out.line(&format!(
+                    "{{\"op\":\"new\",\"fs\":{},\"fl\":{},\"fr\":{},\"s0\":{},\"sk0\":{},{}}}",
+                    key(fs), fl, fr, q24(s0), key(s0), o
+                ));
             }
             Err(m) => {
                 self.out.line(&format!(
